@@ -401,7 +401,7 @@ fn free_dur(calendar_prob: f64) -> BoxedStrategy<Dur> {
         .boxed()
 }
 
-fn pair_case() -> BoxedStrategy<PairCase> {
+pub fn pair_case() -> BoxedStrategy<PairCase> {
     (free_dur(0.03), free_dur(0.03), 0u8..6)
         .prop_map(|(a, b, k)| match k {
             // equal totals expressed differently
@@ -420,7 +420,7 @@ fn pair_case() -> BoxedStrategy<PairCase> {
         .boxed()
 }
 
-fn round_case() -> BoxedStrategy<RoundCase> {
+pub fn round_case() -> BoxedStrategy<RoundCase> {
     let small = prop_oneof![1 => Just(None), 8 => gen::unit_in(3, 9).prop_map(Some)];
     (free_dur(0.0), small, gen::unit_in(3, 9), 0u8..3, prop::option::weighted(0.85, gen::mode()), gen::unit_in(3, 9), 0usize..64, prop::bool::weighted(0.3))
         .prop_map(|(d, smallest, lu, lk, mode, total_unit, inc_idx, tie)| {
